@@ -36,7 +36,7 @@ class Ctx:
         self.pid, self.tier, self.seed, self.level = pid, tier, seed, level
         self.replay = replay
         self.timer = Timer()
-        self.outdir = os.path.join(OUT_ROOT, pid if not replay else pid + "_replay")
+        self.outdir = os.path.join(OUT_ROOT, (pid if tier == "quick" else pid + "-" + tier) if not replay else pid + "_replay")
         if os.path.isdir(self.outdir):
             # keep earlier violation replays (they are referenced by printed lines) but drop scratch
             for e in os.listdir(self.outdir):
